@@ -25,6 +25,7 @@ Definition F_prql : ftab := {|
   bs_un := GenCodegen.fmt_unary_strength;
   bs_rng := GenCodegen.fmt_range_strength;
   bs_call := GenCodegen.fmt_call_strength;
+  bs_func := GenCodegen.fmt_func_strength;
   bs_other := GenCodegen.fmt_other_strength;
   cbl := fun u => nth u GenCodegen.fmt_can_bind_left false;
   sym_bin := fun o => sym_index (nth o GenCodegen.bin_text []);
@@ -32,23 +33,9 @@ Definition F_prql : ftab := {|
   alias_ctx := GenCodegen.fmt_alias_ctx;
   noalias_ctx := GenCodegen.fmt_noalias_ctx;
   case_ctx := GenCodegen.fmt_case_ctx;
+  default_ctx := GenCodegen.fmt_lambda_default_ctx;
+  body_ctx := GenCodegen.fmt_lambda_body_ctx;
 |}.
-
-(* Positions whose expressions are outside the expression model (lambdas, annotations), as a finite obligation on the
-   regenerated numbers: the context strength forced there parenthesises what the parser does not accept bare.
-     lambda body, case branch (parser: func_call):  a call stays bare, a lambda gets parentheses;
-     default value of a lambda parameter, annotation expression (parser: expr / plain term): calls, lambdas and
-     aliased expressions get parentheses;
-   and nothing an operator can contain is weaker than a lambda. *)
-Definition position_tables_ok : bool :=
-  (GenCodegen.fmt_func_strength <? GenCodegen.fmt_lambda_body_ctx) && (GenCodegen.fmt_lambda_body_ctx <=? GenCodegen.fmt_call_strength) &&
-  (GenCodegen.fmt_func_strength <? GenCodegen.fmt_case_ctx) && (GenCodegen.fmt_case_ctx <=? GenCodegen.fmt_call_strength) &&
-  (GenCodegen.fmt_call_strength <? GenCodegen.fmt_lambda_default_ctx) && (GenCodegen.fmt_alias_ctx <? GenCodegen.fmt_lambda_default_ctx) &&
-  (GenCodegen.fmt_call_strength <? GenCodegen.fmt_annotation_ctx) && (GenCodegen.fmt_alias_ctx <? GenCodegen.fmt_annotation_ctx) &&
-  (GenCodegen.fmt_func_strength <? GenCodegen.fmt_call_strength) &&
-  forallb (fun s => GenCodegen.fmt_lambda_default_ctx <=? s) GenCodegen.fmt_bin_strength &&
-  (GenCodegen.fmt_lambda_default_ctx <=? GenCodegen.fmt_unary_strength) && (GenCodegen.fmt_lambda_default_ctx <=? GenCodegen.fmt_range_strength) &&
-  (0 <? GenCodegen.fmt_func_strength).
 
 Fixpoint lookup_sym (s : str) (l : list (str * nat)) : option nat :=
   match l with
@@ -81,3 +68,11 @@ Definition R_prql : ttab := {| sym_text := fun s => nth s symtab []; ids := I_pr
 Definition fmt_text (e : expr) : str := render R_prql (fmt_top F_prql e).
 Definition fmt_toks (e : expr) : list tok := fmt_top F_prql e.
 Definition parse_prql (fuel : nat) (ts : list tok) : option expr := parse P_prql fuel ts.
+
+(* an annotation expression (`@expr`, Stmt::write) is written at context strength >= fmt_annotation_ctx, position
+   Unspecified, nothing unbound; the parser reads it with `expr()`.  The number must parenthesise calls (hence
+   lambdas) and aliased expressions. *)
+Definition annotation_ctx_ok : bool :=
+  (GenCodegen.fmt_call_strength <=? GenCodegen.fmt_annotation_ctx) && (GenCodegen.fmt_alias_ctx <? GenCodegen.fmt_annotation_ctx).
+Definition fmt_annotation_toks (e : expr) : list tok := fmt F_prql e (GenCodegen.fmt_annotation_ctx, PUnspec, false).
+Definition parse_expr_prql (fuel : nat) (ts : list tok) : option expr := parse_expr P_prql fuel ts.
